@@ -1240,10 +1240,10 @@ func (c *cpu) GetLastLevelCaches() []*Cache {
 
 	for idx := lastIndex; idx >= 0; idx-- {
 		cch := c.caches[idx]
-		caches = append(caches, cch)
 		if cch.level != lastLevel {
 			break
 		}
+		caches = append(caches, cch)
 	}
 
 	return caches
@@ -1282,10 +1282,10 @@ func (c *cpu) GetLastLevelCacheCPUSet() cpuset.CPUSet {
 
 	for idx := lastIndex; idx >= 0; idx-- {
 		cch := c.caches[idx]
-		cpus = cpus.Union(CPUSetFromIDSet(cch.cpus))
 		if cch.level != lastLevel {
 			break
 		}
+		cpus = cpus.Union(CPUSetFromIDSet(cch.cpus))
 	}
 
 	return cpus
